@@ -33,8 +33,19 @@ type InjStore struct {
 	storage.ManagedStore
 	mu      sync.Mutex
 	mutates int64
+	closed  int32
 	Hook    func(ordinal int64, phase string, muts []*storage.Mutation) // phase: "before" | "after"
 	FailAt  int64                                                       // if != 0: the Mutate with this ordinal returns an error instead of writing
+}
+
+// Close closes the underlying store exactly once: NewRaftNode closes the store itself on some of its failure
+// paths (node.Close after a failed join) and not on others, and a second Close of a RocksDB store is a
+// use-after-free in native code that would take the whole monitor process down.
+func (s *InjStore) Close() error {
+	if !atomic.CompareAndSwapInt32(&s.closed, 0, 1) {
+		return nil
+	}
+	return s.ManagedStore.Close()
 }
 
 func (s *InjStore) Mutate(muts []*storage.Mutation, meta []byte) error {
@@ -164,7 +175,7 @@ func StartNode(cfg NodeCfg) (*Node, error) {
 	rn, err := consensus.NewRaftNode(opts, st, n.snapCh, nil)
 	if err != nil {
 		// NewRaftNode closes what it opened only partially; close the store ourselves if still open
-		lib.Recover(func() { raw.Close() })
+		lib.Recover(func() { st.Close() })
 		close(n.snapCh)
 		return nil, err
 	}
